@@ -145,9 +145,17 @@ func editStruct(t *rapid.T, n *core.WNode, e wireEditCfg, depth int, stats map[s
 			stats["insert"]++
 		}
 	}
-	if e.Dup && len(n.Fields) > 0 && rapid.IntRange(0, p+3).Draw(t, "dup") == 0 {
+	if e.Dup && len(n.Fields) > 0 && stats["dup"] < 3 && rapid.IntRange(0, p+3).Draw(t, "dup") == 0 {
+		// at most three repeats per message, of fields of moderate size: repeats of repeats of nested
+		// structs would double the message at every level
 		i := rapid.IntRange(0, len(n.Fields)-1).Draw(t, "dupi")
+		if n.Fields[i].End-n.Fields[i].Off > 2048 {
+			i = 0
+		}
 		cp := n.Fields[i]
+		if cp.End-cp.Off > 2048 {
+			cp.V, cp.T = genForeignValue(t, int(cp.T))
+		}
 		if rapid.IntRange(0, 3).Draw(t, "dupother") == 0 {
 			cp.V, cp.T = genForeignValue(t, int(cp.T)) // another wire type under the same id: skipped
 		}
